@@ -25,9 +25,7 @@ pub fn dur_to_chrono(secs: i64, nanos: u32) -> Option<chrono::Duration> {
 pub fn ts_to_chrono(secs: i64, nanos: u32, off: i32) -> Option<chrono::DateTime<chrono::FixedOffset>> {
     let utc = chrono::DateTime::from_timestamp(secs, nanos)?;
     let off = chrono::FixedOffset::east_opt(off)?;
-    // with_timezone panics when the *local* time leaves chrono's range; check first
-    let local = utc.naive_utc().checked_add_signed(chrono::Duration::seconds(off.local_minus_utc() as i64));
-    local?;
+    // (the *local* time may lie outside chrono's range - MAX_UTC at +01:00: a host can build such a value, so can we)
     Some(utc.with_timezone(&off))
 }
 
